@@ -56,7 +56,7 @@ def run_raw(job_list, timeout=900):
                     js.append(d)
                 except ValueError:
                     js.append({"infra": "unparsable", "raw": l[:200]})
-            elif l.startswith(("F ", "E ")):
+            elif l.startswith(("F ", "E ", "T ")):
                 raw.append(l)
         if not js:
             js.append({"infra": "no output rc=%d" % r.returncode, "stderr": r.stderr[-1000:], "args": args})
